@@ -17,8 +17,8 @@ ID = 'C04'
 LEVEL = 'exploration'
 ENGINE = 'vsched'
 RULE = ('Program templates (test_start present/absent; plain phases; group with setup/main/teardown; nested groups; subtest; '
-        'force_repeat and REPEAT phases; bodies that return at once, sleep (killable), block until killed, or swallow the '
-        'termination error once) x {one abort, two aborts} x arrival via abort_from_sig_int() from a helper thread or via '
+        'force_repeat and REPEAT phases; bodies that return at once, sleep (killable), block until killed, swallow the '
+        'termination error once, or stay stuck for ever whatever is raised in them; cancel_timeout_s in {0, 0.5, 2}) x {one abort, two aborts} x arrival via abort_from_sig_int() from a helper thread or via '
         'Test.handle_sig_int injected as a signal handler on the thread running execute() (at any line of execute(), while parked '
         'in wait(), during finalisation).  For every template the fault-free run is traced (N line-level yield points in '
         'Test.execute, TestExecutor, PhaseExecutor, KillableThread) and the abort is injected at EVERY yield point k in [0,N) (quick: '
@@ -38,10 +38,14 @@ ASSUMPTIONS = ['In the scheduled part signal delivery is modelled: the handler r
                'the real-signal part covers only delivery while execute() waits (>=50 ms after a body started).',
                'Bodies that swallow ThreadTerminationError and keep running are excluded from the overlap invariant (they outlive their phase by construction); '
                'bodies that need clean-up time shorter than cancel_timeout_s after the kill (template slow-exit) are included: the executor waits for them.',
-               'A body that ran into its own phase timeout (180 virtual seconds) is abandoned by design (C12) and not counted as overlapping.']
+               'A body that ran into its own phase timeout (180 virtual seconds) is abandoned by design (C12) and not counted as overlapping.',
+               'With cancel_timeout_s=0 the operator configured that a cancelled body is not waited for: the overlap invariant is not applied to those cases (all other invariants are).']
 
 FOCUS_TEMPLATES = ('plain3', 'start+plain', 'group', 'subtest')
 TEMPLATES = ['plain3', 'start+plain', 'group', 'group-setup-blocks', 'nested', 'subtest', 'force-repeat', 'repeat-result', 'teardown-blocks', 'swallow', 'start-blocks', 'two-groups', 'slow-exit']
+# cancel_timeout_s is a configuration key: (template, value) pairs swept in addition (default in the sweeps above: 2 s)
+CANCEL_VARIANTS = [('stuck', 0), ('stuck', 0.5), ('stuck', 2), ('group', 0), ('teardown-blocks', 0), ('swallow', 0)]
+UNKILLABLE = ('swallow', 'stuck')
 
 
 def _spawn(fn, name):
@@ -70,6 +74,12 @@ def build(template, htf, s, log):
         except threads.ThreadTerminationError:
           s.sleep(1.0)    # clean-up: with the <=0.25 s until the kill is noticed well below cancel_timeout_s (2 s)
           raise
+      elif kind == 'stuck':
+        while True:       # blocked in a call no asynchronous exception gets through to; never ends by itself
+          try:
+            s.sleep(1e7)
+          except threads.ThreadTerminationError:
+            log.append(('swallowed', name, role, s.k))
       elif kind == 'swallow':
         try:
           s.sleep(5.0)
@@ -124,6 +134,8 @@ def build(template, htf, s, log):
     nodes = [G(main=[mk('m1', 'main')], teardown=[mk('t1', 'teardown', 'block'), mk('t2', 'teardown')])]
   elif template == 'swallow':
     nodes = [G(main=[mk('m1', 'main', 'swallow'), mk('m2', 'main')], teardown=[mk('t1', 'teardown')])]
+  elif template == 'stuck':
+    nodes = [G(main=[mk('m1', 'main', 'stuck'), mk('m2', 'main')], teardown=[mk('t1', 'teardown')]), mk('after', 'main')]
   elif template == 'slow-exit':
     nodes = [G(main=[mk('m1', 'main', 'slow-exit'), mk('m2', 'main')], teardown=[mk('t1', 'teardown')]), mk('after', 'main')]
   elif template == 'two-groups':
@@ -172,7 +184,7 @@ def innermost_openhtf_function():
 def abort_case(case):
   """case = {'template': str, 'via': 'thread'|'signal', 'plan': {k: choice}} (abort injections are part of the plan)."""
   def fn(s):
-    htf = ohtf.reset_case(cancel_timeout_s=2, plug_teardown_timeout_s=1)
+    htf = ohtf.reset_case(cancel_timeout_s=case.get('cancel', 2), plug_teardown_timeout_s=1)
     vmode.quiet_logging()
 
     class TimedLog(list):
@@ -281,7 +293,7 @@ def check(case):
   s, res, exc = run_case(case)
   tag = case['template']
   n_abort_requests = len([1 for v in (case.get('plan') or {}).values() if v == 'SIGINT' or (isinstance(v, list) and v[0] == 'wake')])
-  r.classes = ['template:' + tag, 'via:' + case['via'], 'aborts:%d' % n_abort_requests]
+  r.classes = ['template:' + tag, 'via:' + case['via'], 'aborts:%d' % n_abort_requests] + (['cancel_timeout_s:%s' % case['cancel']] if 'cancel' in case else [])
   if s.failure is not None:
     if s.failure[0] in ('deadlock', 'steplimit'):
       locs = [e for e in s.events if e[0] == 'sig-at']
@@ -330,7 +342,7 @@ def check(case):
   if enters and exits:
     for i, e in starts:
       still_within_timeout = res['times'][enters[0]] < res['times'][i] + 179.0   # not already abandoned by its phase timeout
-      if e[2] in ('test_start', 'setup', 'main') and i < enters[0] and tag != 'swallow' and still_within_timeout:
+      if e[2] in ('test_start', 'setup', 'main') and i < enters[0] and tag not in UNKILLABLE and still_within_timeout:
         ended = [j for j, x in enumerate(log) if x[0] == 'end' and x[1] == e[1] and j > i]
         if not ended or ended[0] > exits[0]:
           if not any(x[0] == 'terminated' and x[1] == e[1] for x in log):
@@ -368,7 +380,7 @@ def check(case):
           tag, case.get('plan'), log))
     started = {e[1] for _, e in starts}
     pairs = {'group': [('m1', ['t1', 't2'])], 'nested': [('im', ['it', 't1']), ('m1', ['t1'])], 'subtest': [('m', ['t'])],
-             'teardown-blocks': [('m1', ['t1'])], 'swallow': [('m1', ['t1'])], 'slow-exit': [('m1', ['t1'])], 'two-groups': [('m1', ['t1']), ('m2', ['t2'])]}
+             'teardown-blocks': [('m1', ['t1'])], 'swallow': [('m1', ['t1'])], 'stuck': [('m1', ['t1'])], 'slow-exit': [('m1', ['t1'])], 'two-groups': [('m1', ['t1']), ('m2', ['t2'])]}
     for main_name, tds in pairs.get(tag, []):
       if main_name in started:
         for td in tds:
@@ -390,7 +402,7 @@ def check(case):
   # O6 overlap of killable bodies
   open_, open_t = None, 0.0
   for i, e in enumerate(log):
-    if e[0] == 'start' and tag != 'swallow':
+    if e[0] == 'start' and tag not in UNKILLABLE and case.get('cancel', 2) > 0:
       if open_ is not None and res['times'][i] >= open_t + 179.0:
         # the open body was not cancelled by an abort but ran into its phase timeout (default 180 s): it is abandoned
         # by design (property C12) and the executor moves on without waiting for it
@@ -543,6 +555,10 @@ def plan(tier, seed):
     for via in ('thread', 'signal'):
       jobs.append({'kind': 'sweep', 'name': 'sweep.%s.%s' % (t, via), 'template': t, 'via': via, 'stride': 3 if q else 1, 'offset': seed % 3 if q else 0,
                    'pairs': 40 if q else 600, 'seed': seed})
+  for t, c in CANCEL_VARIANTS:
+    for via in ('thread', 'signal'):
+      jobs.append({'kind': 'sweep', 'name': 'sweep.%s.cancel%s.%s' % (t, c, via), 'template': t, 'via': via, 'cancel': c, 'stride': 3 if q else 1,
+                   'offset': seed % 3 if q else 0, 'pairs': 10 if q else 200, 'seed': seed})
   return jobs
 
 
@@ -577,6 +593,8 @@ def run_job(job, acct):
   base = {'template': job['template'], 'via': job['via'], 'plan': {}}
   if job.get('rerun'):
     base['rerun'] = True
+  if 'cancel' in job:
+    base['cancel'] = job['cancel']
   r0, s0 = check(base)
   record(base, r0)
   n = s0.k
